@@ -229,4 +229,148 @@ theorem strip_ws (p root : List B) (hp : ∀ b ∈ p, isWs b = true) (hr : start
   rw [hdc p hp, htl p hp]
   rfl
 
+/-! ### the whole prolog: white space and comments of any content -/
+
+theorem isPrefixOf_append_left : ∀ (l a b : List B), l.length ≤ a.length → l.isPrefixOf (a ++ b) = l.isPrefixOf a
+  | [], _, _, _ => by simp
+  | x :: l, [], _, h => by simp at h
+  | x :: l, y :: a, b, h => by
+    simp only [List.cons_append, List.isPrefixOf]
+    rw [isPrefixOf_append_left l a b (by simpa using h)]
+
+/-- the comment body does not end early: the first `-->` in `body ++ "-->"` is the one at the end -/
+def closesAtEnd (body : List B) : Prop := ∀ k, k < body.length → cClose.isPrefixOf ((body ++ cClose).drop k) = false
+
+theorem closesAtEnd_tail {x : B} {t : List B} (h : closesAtEnd (x :: t)) : closesAtEnd t := by
+  intro k hk
+  have := h (k + 1) (by simpa using hk)
+  simpa using this
+
+theorem afterClose_body : ∀ (body rest : List B), closesAtEnd body → afterClose (body ++ cClose ++ rest) = some rest
+  | [], rest, _ => by simp [afterClose, cClose, List.isPrefixOf]
+  | x :: t, rest, h => by
+    have h0 : cClose.isPrefixOf (x :: t ++ cClose) = false := by simpa using h 0 (by simp)
+    have h0' : cClose.isPrefixOf (x :: (t ++ cClose ++ rest)) = false := by
+      have := isPrefixOf_append_left cClose (x :: t ++ cClose) rest (by simp [cClose])
+      simpa [List.append_assoc] using this.trans h0
+    simp only [List.cons_append, afterClose, h0', Bool.false_eq_true, if_false]
+    exact afterClose_body t rest (closesAtEnd_tail h)
+
+/-- what may stand in front of the root element: white space and comments -/
+inductive Prolog : List B → Prop
+  | nil : Prolog []
+  | ws (b : B) (p : List B) : isWs b = true → Prolog p → Prolog (b :: p)
+  | comment (body p : List B) : closesAtEnd body → Prolog p → Prolog (cOpen ++ body ++ cClose ++ p)
+
+
+theorem ws_ne (b : B) (hb : isWs b = true) : ((b = 32 ∨ b = 9) ∨ b = 13) ∨ b = 10 := by
+  unfold isWs at hb; simpa [Bool.or_eq_true] using hb
+
+theorem rootIdx_prolog (root : List B) (hr : startsCI mjmlNeedle root = true) :
+    ∀ (p : List B), Prolog p → rootIdx (p ++ root) = some p.length := by
+  intro p hp
+  induction hp with
+  | nil =>
+    cases root with
+    | nil => simp [startsCI, mjmlNeedle] at hr
+    | cons b r => rw [List.nil_append, rootIdx]; simp [hr]
+  | ws b r hb _ ih =>
+    have hb' := ws_ne b hb
+    have hno : startsCI mjmlNeedle (b :: (r ++ root)) = false := by
+      unfold startsCI mjmlNeedle
+      simp only [List.length_cons, List.length_nil, List.take_succ_cons, List.map_cons]
+      have : lower b ≠ 60 := by
+        unfold lower
+        rcases hb' with ((rfl | rfl) | rfl) | rfl <;> decide
+      cases hlen : decide (0 + 1 + 1 + 1 + 1 + 1 ≤ (r ++ root).length + 1) <;> simp [hlen, this]
+    have hnc : cOpen.isPrefixOf (b :: (r ++ root)) = false := by
+      rcases hb' with ((rfl | rfl) | rfl) | rfl <;> simp [cOpen, List.isPrefixOf]
+    rw [List.cons_append, rootIdx]
+    simp only [hno, hnc, Bool.false_eq_true, if_false]
+    rw [ih]
+    simp
+  | comment body r hbody _ ih =>
+    have hshape : cOpen ++ body ++ cClose ++ r ++ root = 60 :: 33 :: 45 :: 45 :: (body ++ cClose ++ (r ++ root)) := by
+      simp [cOpen, List.append_assoc]
+    rw [hshape, rootIdx]
+    have hno : startsCI mjmlNeedle (60 :: 33 :: 45 :: 45 :: (body ++ cClose ++ (r ++ root))) = false := by
+      unfold startsCI mjmlNeedle
+      simp [lower]
+    have hco : cOpen.isPrefixOf (60 :: 33 :: 45 :: 45 :: (body ++ cClose ++ (r ++ root))) = true := by
+      simp [cOpen, List.isPrefixOf]
+    simp only [hno, hco, Bool.false_eq_true, if_false, if_true]
+    have hac : afterClose ((60 :: 33 :: 45 :: 45 :: (body ++ cClose ++ (r ++ root))).drop 4) = some (r ++ root) := by
+      simpa using afterClose_body body (r ++ root) hbody
+    split
+    · rename_i rest heq
+      rw [hac] at heq
+      cases heq
+      rw [ih]
+      simp [cOpen, cClose]
+      omega
+    · rename_i heq
+      rw [hac] at heq
+      cases heq
+
+theorem dropComments_prolog : ∀ (p : List B), Prolog p → trimLeft (dropComments p) = [] := by
+  intro p hp
+  induction hp with
+  | nil => rw [dropComments]; rfl
+  | ws b r hb _ ih =>
+    have hb' := ws_ne b hb
+    have hnc : cOpen.isPrefixOf (b :: r) = false := by
+      rcases hb' with ((rfl | rfl) | rfl) | rfl <;> simp [cOpen, List.isPrefixOf]
+    rw [dropComments]
+    simp only [hnc, Bool.false_eq_true, if_false, trimLeft, hb, if_true]
+    exact ih
+  | comment body r hbody _ ih =>
+    have hshape : cOpen ++ body ++ cClose ++ r = 60 :: 33 :: 45 :: 45 :: (body ++ cClose ++ r) := by
+      simp [cOpen, List.append_assoc]
+    rw [hshape, dropComments]
+    have hco : cOpen.isPrefixOf (60 :: 33 :: 45 :: 45 :: (body ++ cClose ++ r)) = true := by
+      simp [cOpen, List.isPrefixOf]
+    simp only [hco, if_true]
+    have hac : afterClose ((60 :: 33 :: 45 :: 45 :: (body ++ cClose ++ r)).drop 4) = some r := by
+      simpa using afterClose_body body r hbody
+    split
+    · rename_i rest heq
+      rw [hac] at heq
+      cases heq
+      exact ih
+    · rename_i heq
+      rw [hac] at heq
+      cases heq
+
+/-- **comments and white space in front of the root element are ignored**, whatever the comments contain (quotes, angle
+    brackets, the text `<mjml`, bodies that begin with `>` or `->`) -/
+theorem strip_prolog (p root : List B) (hp : Prolog p) (hr : startsCI mjmlNeedle root = true) :
+    strip (p ++ root) = root := by
+  unfold strip splitAtRoot
+  rw [rootIdx_prolog root hr p hp]
+  simp [dropComments_prolog p hp]
+
+/-- decidable form of `closesAtEnd` -/
+def closesAtEndB (body : List B) : Bool := (List.range body.length).all (fun k => !(cClose.isPrefixOf ((body ++ cClose).drop k)))
+
+theorem closesAtEnd_of_B (body : List B) (h : closesAtEndB body = true) : closesAtEnd body := by
+  intro k hk
+  unfold closesAtEndB at h
+  rw [List.all_eq_true] at h
+  have := h k (by simpa using hk)
+  simpa using this
+
+/-- non-vacuity: `<!--<mjml>-->` + newline, `<!--> note -->`, `<!---> x -->`, `<!-- don't -->` are prologs -/
+example : Prolog ([60, 33, 45, 45] ++ [60, 109, 106, 109, 108, 62] ++ [45, 45, 62] ++ ([10] ++ [])) :=
+  .comment [60, 109, 106, 109, 108, 62] _ (closesAtEnd_of_B _ (by decide)) (.ws 10 [] (by decide) .nil)
+example : Prolog ([60, 33, 45, 45] ++ [62, 32, 110] ++ [45, 45, 62] ++ []) :=
+  .comment [62, 32, 110] _ (closesAtEnd_of_B _ (by decide)) .nil
+example : Prolog ([60, 33, 45, 45] ++ [45, 62, 32, 120, 32] ++ [45, 45, 62] ++ []) :=
+  .comment [45, 62, 32, 120, 32] _ (closesAtEnd_of_B _ (by decide)) .nil
+example : Prolog ([60, 33, 45, 45] ++ [32, 100, 111, 110, 39, 116, 32] ++ [45, 45, 62] ++ []) :=
+  .comment [32, 100, 111, 110, 39, 116, 32] _ (closesAtEnd_of_B _ (by decide)) .nil
+
+/-- … and the statement was false of the code before 51f397d: the old root search stopped inside the comment -/
+example : strip ([60, 33, 45, 45] ++ [60, 109, 106, 109, 108, 62] ++ [45, 45, 62] ++ [60, 109, 106, 109, 108, 62]) = [60, 109, 106, 109, 108, 62] :=
+  strip_prolog _ _ (.comment [60, 109, 106, 109, 108, 62] [] (closesAtEnd_of_B _ (by decide)) .nil) (by decide)
+
 end Gomjml.Passes
